@@ -398,3 +398,12 @@ Example ex_loader_duplicate_names :
   load_model true 32768 65504
     ([([80], 16, [None; None; None; None])], [(65536, [([80], 17, [None; None; None; None])])]) <> None.
 Proof. vm_compute. split; [reflexivity|discriminate]. Qed.
+
+(* A load is a function of its inputs only: whatever a long-lived loader was asked before -- loads
+   that were refused part-way included -- the outcome of the next load is load_model of that load's
+   own input.  (Trivial in the model, where every load starts from an empty map; that the C++
+   PidStoreLoader keeps nothing between loads is validated by the `seq` correspondence.) *)
+Theorem c14_loader_stateless : forall lo hi before v p,
+  run_loads lo hi (before ++ [(v, p)]) = run_loads lo hi before ++ [load_model v lo hi p].
+Proof. intros. unfold run_loads. now rewrite map_app. Qed.
+Print Assumptions c14_loader_stateless.
